@@ -148,7 +148,7 @@ fn run_resample2(c: &mut Ctx) {
             c.distinct(&(m.v.len(), m.v[0].x.to_bits(), 0, n));
         }
         1 => {
-            let s = l / c.rng.log_range(1.06, 500.0);
+            let s = if c.rng.chance(0.25) { l / c.rng.int(2, 60) as f64 } else { l / c.rng.log_range(1.06, 500.0) };
             c.set_case(json!({"curve": case.json(), "mode": "BySpacing", "spacing": s}));
             let api = "Curve2::resample(BySpacing)";
             let r = guard(|| curve.resample(Resample::BySpacing(s)));
@@ -177,7 +177,35 @@ fn run_resample2(c: &mut Ctx) {
                 Ok(Ok(o)) => o,
             };
             if ambiguous {
-                c.skip("Curve2::resample(BySpacing) :: vertices == P(m + k*s)");
+                // L is (within rounding) a multiple of the spacing: whether the sample that lands on L
+                // exists is decided by rounding; either reading is accepted, anything else is not
+                let keep: Vec<f64> = pos.iter().cloned().filter(|p| (l - p).abs() >= 1e-9 * l).collect();
+                let mut alts: Vec<Vec<Point2>> = Vec::new();
+                let mg = (l - keep[keep.len() - 1]) / 2.0;
+                alts.push(keep.iter().map(|p| m.at(p + mg)).collect());
+                let mut with_end = keep.clone();
+                with_end.push(l);
+                alts.push(with_end.iter().map(|p| m.at(*p)).collect());
+                let ov = out.points().to_vec();
+                let mut decided = true;
+                let mut ok = false;
+                for e in &alts {
+                    if !dedup_robust2(e, tol, eps) {
+                        decided = false;
+                        continue;
+                    }
+                    let md = model_from_points2(e, tol, closed);
+                    if md.len() == ov.len() && md.iter().zip(ov.iter()).all(|(a, b)| (a - b).norm() <= eps) {
+                        ok = true;
+                    }
+                }
+                if ok || decided {
+                    c.check(api, "vertices == P(m + k*s)", &class, ok, || {
+                        format!("L={l:e} is a multiple of the spacing {s:e}; the output ({} vertices) is neither the centred sampling without the end sample nor the one with it", ov.len())
+                    });
+                } else {
+                    c.skip("Curve2::resample(BySpacing) :: vertices == P(m + k*s)");
+                }
                 return;
             }
             c.check(api, "margins equal and below one spacing", &class, margin < s, || format!("margin {margin:e} spacing {s:e}"));
@@ -334,7 +362,7 @@ fn run_resample3(c: &mut Ctx) {
             }
         }
         1 => {
-            let s = l / c.rng.log_range(1.06, 500.0);
+            let s = if c.rng.chance(0.25) { l / c.rng.int(2, 60) as f64 } else { l / c.rng.log_range(1.06, 500.0) };
             c.set_case(json!({"curve": case.json(), "mode": "BySpacing", "spacing": s}));
             let api = "Curve3::resample(BySpacing)";
             let mut pos = Vec::new();
@@ -356,7 +384,33 @@ fn run_resample3(c: &mut Ctx) {
                 }
                 Ok(o) => {
                     if ambiguous {
-                        c.skip("Curve3::resample(BySpacing) :: vertices == P(m + k*s)");
+                        let keep: Vec<f64> = pos.iter().cloned().filter(|p| (l - p).abs() >= 1e-9 * l).collect();
+                        let mut alts: Vec<Vec<Point3>> = Vec::new();
+                        let mg = (l - keep[keep.len() - 1]) / 2.0;
+                        alts.push(keep.iter().map(|p| m.at(p + mg)).collect());
+                        let mut with_end = keep.clone();
+                        with_end.push(l);
+                        alts.push(with_end.iter().map(|p| m.at(*p)).collect());
+                        let ov = o.points().to_vec();
+                        let mut decided = true;
+                        let mut ok = false;
+                        for e in &alts {
+                            if !dedup_robust3(e, tol, eps) {
+                                decided = false;
+                                continue;
+                            }
+                            let md = model_from_points3(e, tol);
+                            if md.len() == ov.len() && md.iter().zip(ov.iter()).all(|(a, b)| (a - b).norm() <= eps) {
+                                ok = true;
+                            }
+                        }
+                        if ok || decided {
+                            c.check(api, "vertices == P(m + k*s)", &class, ok, || {
+                                format!("L={l:e} is a multiple of the spacing {s:e}; the output ({} vertices) is neither the centred sampling without the end sample nor the one with it", ov.len())
+                            });
+                        } else {
+                            c.skip("Curve3::resample(BySpacing) :: vertices == P(m + k*s)");
+                        }
                         return;
                     }
                     (api, "vertices == P(m + k*s)", exp, o, false, s)
